@@ -269,26 +269,33 @@ def run_chain(sh, case):
 
 IFC_SWAP_SRC = """
 from pymtl3 import *
+def mkf(P, n):
+  return P(8) if n == 0 else [P(8) for _ in range(n)]
+def each(x):
+  return x if isinstance(x, list) else [x]
 class OIfc(Interface):
   def construct(s, fields):
-    for f in fields: setattr(s, f, OutPort(8))
+    for f, n in fields: setattr(s, f, mkf(OutPort, n))
 class IIfc(Interface):
   def construct(s, fields):
-    for f in fields: setattr(s, f, InPort(8))
+    for f, n in fields: setattr(s, f, mkf(InPort, n))
 class P(Component):
   def construct(s, fields):
     s.in_ = InPort(8); s.o = OIfc(fields)
-    for k, f in enumerate(fields):
-      getattr(s.o, f).__ifloordiv__(s.in_) if False else connect(getattr(s.o, f), s.in_)
+    for f, n in fields:
+      for x in each(getattr(s.o, f)): connect(x, s.in_)
 class Q(Component):
   def construct(s, fields):
-    s.i = IIfc(fields); s.outs = [OutPort(8) for _ in fields]
-    for k, f in enumerate(fields): connect(s.outs[k], getattr(s.i, f))
+    s.i = IIfc(fields)
+    ports = [x for f, n in fields for x in each(getattr(s.i, f))]
+    s.outs = [OutPort(8) for _ in ports]
+    for k, x in enumerate(ports): connect(s.outs[k], x)
 class ITop(Component):
   def construct(s, fp, fq, swap):
-    s.in_ = InPort(8); s.p = P(fp); s.q = Q(fq); s.outs = [OutPort(8) for _ in fq]
+    s.in_ = InPort(8); s.p = P(fp); s.q = Q(fq)
+    s.outs = [OutPort(8) for _ in s.q.outs]
     s.p.in_ //= s.in_
-    for k in range(len(fq)): s.outs[k] //= s.q.outs[k]
+    for k in range(len(s.q.outs)): s.outs[k] //= s.q.outs[k]
     if swap: connect(s.q.i, s.p.o)
     else:    connect(s.p.o, s.q.i)
 """
@@ -296,15 +303,19 @@ class ITop(Component):
 
 def run_ifc_swap(sh, case):
   """a whole-interface connection written in both orientations: same nets and writers, or the same refusal - also when one of the
-  two interfaces has ports the other one lacks"""
+  two interfaces has ports the other one lacks, or a list field of another length"""
   rng = sh.rng("ifcswap", case)
   names = ["a", "b", "c", "d"]
-  fp = rng.sample(names, rng.randrange(1, 4))
-  how = rng.choice(["same", "same", "p-has-more", "q-has-more"])
+  fp = [(nm_, rng.choice([0, 0, 2, 3])) for nm_ in rng.sample(names, rng.randrange(1, 4))]
+  how = rng.choice(["same", "same", "p-has-more", "q-has-more", "list-longer-in-q", "list-longer-in-p", "list-vs-scalar"])
   fq = list(fp)
-  extra = [n for n in names if n not in fp]
+  extra = [n for n in names if n not in [f for f, _ in fp]]
+  lists = [i for i, (f, n) in enumerate(fp) if n]
   if how == "p-has-more" and len(fp) >= 2: fq = fp[:-1]
-  elif how == "q-has-more" and extra: fq = fp + extra[:1]
+  elif how == "q-has-more" and extra: fq = fp + [(extra[0], 0)]
+  elif how == "list-longer-in-q" and lists: i = rng.choice(lists); fq[i] = (fp[i][0], fp[i][1] + rng.randrange(1, 3))
+  elif how == "list-longer-in-p" and lists: i = rng.choice(lists); fq[i] = (fp[i][0], fp[i][1] - 1 if fp[i][1] > 2 else 2); fq[i] = fq[i] if fq[i] != fp[i] else (fp[i][0], 1)
+  elif how == "list-vs-scalar" and lists: i = rng.choice(lists); fq[i] = (fp[i][0], 0)
   else: how = "same"
   rng.shuffle(fq)
   mod = G.load_source(IFC_SWAP_SRC, "c08ifc")
@@ -321,6 +332,9 @@ def run_ifc_swap(sh, case):
     if res[0] != res[1]:
       sh.violation("swapping-the-sides-of-an-interface-connection-changes-the-outcome", {"ports_of_p.o": fp, "ports_of_q.i": fq,
                    "connect(s.p.o, s.q.i)": res[0][0], "connect(s.q.i, s.p.o)": res[1][0], "source": IFC_SWAP_SRC}, case=("ifcswap", case))
+    elif how != "same" and res[0][0] == "elaborated":
+      sh.violation("interface-connection-with-unmatched-ports-elaborated-silently", {"ports_of_p.o": fp, "ports_of_q.i": fq, "difference": how,
+                   "source": IFC_SWAP_SRC}, case=("ifcswap", case))
   finally:
     G.unload(mod)
 
